@@ -364,6 +364,15 @@ func (e *Engine) finishQuery(qs string) string {
 				fmt.Fprintf(&strsb, "(assert (= (strbyte %s %d) %d))\n", nm, j, s[j])
 			}
 		}
+		if len(s) >= 1 && len(s) <= 2 {
+			// strings are their contents: a string with the content of a (short) literal is that literal
+			// (needed where a literal is used as a map key and compared by content elsewhere)
+			cond := []string{fmt.Sprintf("(= (strlen s!c) %d)", len(s))}
+			for j := 0; j < len(s); j++ {
+				cond = append(cond, fmt.Sprintf("(= (strbyte s!c %d) %d)", j, s[j]))
+			}
+			fmt.Fprintf(&strsb, "(assert (forall ((s!c Int)) (! (=> %s (= s!c %s)) :pattern ((strlen s!c)))))\n", and(cond...), nm)
+		}
 	}
 	qs = strings.Replace(qs, "%%STRS%%\n", strsb.String(), 1)
 	for _, g := range axGroups {
